@@ -83,6 +83,13 @@ def run (line : String) : String :=
       if w < 1 || n < 1 || !(["bytes", "pipe", "one", "gz"].contains tr) then "bad-op"
       else s!"ok {n}"
     | _, _, _, _ => "bad-op"
+  | ["file", f, tr, h] =>
+    -- oracle-only case (the universal entry point ReadSequencesFromFile on a real file)
+    match unhex h with
+    | some _ =>
+      if (f == "fa" || f == "fq1" || f == "gb0" || f == "em0") && (tr == "plain" || tr == "gz") then "same"
+      else "bad-op"
+    | none => "bad-op"
   | ["kseq", f, h] =>
     -- oracle-only case (two-parser agreement)
     match unhex h with
